@@ -280,7 +280,7 @@ fn root_strategy() -> BoxedStrategy<RootSrc> {
     ];
     prop_oneof![
         5 => (gen::mode4(), len, gen::content()).prop_map(|(mode, len, content)| RootSrc::Input { mode, len, content }),
-        1 => (gen::mode4(), any::<[u8; 32]>(), any::<[u8; 32]>()).prop_map(|(mode, left, right)| RootSrc::Merge { mode, left, right }),
+        1 => (gen::mode4(), gen::key32(), gen::key32()).prop_map(|(mode, left, right)| RootSrc::Merge { mode, left, right }),
     ]
     .boxed()
 }
